@@ -149,31 +149,45 @@ impl ISecureFramer for LengthPrefixedFramer {
 
   fn write_msg_multipart(&mut self, msgs: FrameBatch) -> Result<Bytes, ZmqError> {
     let plaintext = self.framer.frame_contiguous(&[msgs])?;
-    let ciphertext = self.cipher.encrypt(&plaintext)?;
-    if ciphertext.len() > u16::MAX as usize {
-      return Err(ZmqError::InvalidMessage(format!(
-        "encrypted record of {} bytes exceeds the 65535-byte record limit",
-        ciphertext.len()
-      )));
-    }
-    let mut out = BytesMut::with_capacity(2 + ciphertext.len());
-    out.put_u16(ciphertext.len() as u16);
-    out.extend_from_slice(&ciphertext);
-    Ok(out.freeze())
+    self.seal_records(&plaintext)
   }
 
   fn write_msg_batch(&mut self, batch: &[FrameBatch]) -> Result<Bytes, ZmqError> {
     let plaintext = self.framer.frame_contiguous(batch)?;
-    let ciphertext = self.cipher.encrypt(&plaintext)?;
-    if ciphertext.len() > u16::MAX as usize {
-      return Err(ZmqError::InvalidMessage(format!(
-        "encrypted record of {} bytes exceeds the 65535-byte record limit",
-        ciphertext.len()
-      )));
+    self.seal_records(&plaintext)
+  }
+}
+
+impl LengthPrefixedFramer {
+  /// Largest plaintext that fits one record: the length prefix is 16 bits and both ciphers
+  /// append a 16-byte authentication tag.
+  const MAX_RECORD_PLAINTEXT: usize = u16::MAX as usize - 16;
+
+  /// Encrypts `plaintext` (whole ZMTP frames) as one or more length-prefixed records. The reader
+  /// appends every decrypted record to one buffer before it parses frames, so a batch - or a
+  /// single large message - may span records: the session batches messages it has already
+  /// accepted, and refusing the batch here would lose them and kill the connection.
+  fn seal_records(&mut self, plaintext: &[u8]) -> Result<Bytes, ZmqError> {
+    let n_records = (plaintext.len() / Self::MAX_RECORD_PLAINTEXT) + 1;
+    let mut out = BytesMut::with_capacity(plaintext.len() + n_records * 18);
+    let mut rest = plaintext;
+    loop {
+      let take = rest.len().min(Self::MAX_RECORD_PLAINTEXT);
+      let (chunk, tail) = rest.split_at(take);
+      let ciphertext = self.cipher.encrypt(chunk)?;
+      if ciphertext.len() > u16::MAX as usize {
+        return Err(ZmqError::InvalidMessage(format!(
+          "encrypted record of {} bytes exceeds the 65535-byte record limit",
+          ciphertext.len()
+        )));
+      }
+      out.put_u16(ciphertext.len() as u16);
+      out.extend_from_slice(&ciphertext);
+      rest = tail;
+      if rest.is_empty() {
+        break;
+      }
     }
-    let mut out = BytesMut::with_capacity(2 + ciphertext.len());
-    out.put_u16(ciphertext.len() as u16);
-    out.extend_from_slice(&ciphertext);
     Ok(out.freeze())
   }
 }
